@@ -316,14 +316,34 @@ theorem traceChain_linked (o : Opts) (c : Cfg α) (traced : List Nat) :
       rw [htl] at ih ⊢
       exact ⟨hx, hw, ih⟩
 
-/-- the filter of `get_nn_dist` with the documented operators -/
+/-- the filter of `get_nn_dist` with the documented operators: what passes lies in `(lo, hi]`,
+whatever `min_distance` is (also 0) -/
 theorem inWin_documented (c : Cfg α) (x : α) (h : inWin Opts.documented c x = true) :
-    x ≤ c.hi ∧ (c.zero < c.minD → c.lo < x) := by
-  simp only [inWin, Opts.documented, Cmp.eval, Bool.and_eq_true, decide_eq_true_eq] at h
-  refine ⟨h.1, fun hm => ?_⟩
-  have h2 := h.2
-  simp only [hm, if_true, decide_eq_true_eq] at h2
-  exact h2
+    x ≤ c.hi ∧ c.lo < x := by
+  simp only [inWin, Opts.documented, Cmp.eval, Bool.and_eq_true, decide_eq_true_eq, Bool.true_or,
+    if_true] at h
+  exact h
+
+/-- and nothing else is asked: every value of `(lo, hi]` passes -/
+theorem inWin_documented_iff (c : Cfg α) (x : α) :
+    inWin Opts.documented c x = true ↔ x ≤ c.hi ∧ c.lo < x := by
+  simp only [inWin, Opts.documented, Cmp.eval, Bool.and_eq_true, decide_eq_true_eq, Bool.true_or,
+    if_true]
+
+/-- consecutive members of a chain: the stored value is the exit→entry squared distance of the link
+and lies in `(lo, hi]` -/
+def LinkedWin (c : Cfg α) : List (Nat × α) → Prop
+  | [] => True
+  | [_] => True
+  | (a, da) :: (b, db) :: rest => da = c.d a b ∧ c.lo < da ∧ da ≤ c.hi ∧ LinkedWin c ((b, db) :: rest)
+
+theorem linked_win (c : Cfg α) : ∀ l : List (Nat × α), Linked Opts.documented c l → LinkedWin c l
+  | [], _ => trivial
+  | [_], _ => trivial
+  | (a, da) :: (b, db) :: rest, h => by
+    obtain ⟨h1, h2, h3⟩ := h
+    obtain ⟨h4, h5⟩ := inWin_documented c _ h2
+    exact ⟨h1, h1 ▸ h5, h1 ▸ h4, linked_win c _ h3⟩
 
 /-! ### concrete arrangements (coordinates in units of 1/10 resp. 1/8; used by the witnesses in `Props/C19`) -/
 
@@ -346,5 +366,10 @@ def ptsDoubleCut : List ((Int × Int × Int) × (Int × Int × Int)) :=
   [((-48, 0, 0), (-480, 0, 0)), ((0, -160, 0), (0, 0, 0)), ((16, 0, 0), (16, 240, 0)),
    ((400, 400, 0), (28, -8, 0)), ((-23, 0, 0), (-40, 0, 0)), ((800, 328, 0), (8, 328, 0)),
    ((8, 345, 0), (8, 640, 0)), ((0, 20, 0), (8, 332, 0))]
+
+/-- coincidence at `min_distance = 0` (units 1, max_distance 3): the exit site of particle 0 IS the
+entry site of particle 1 -/
+def ptsCoincide : List ((Int × Int × Int) × (Int × Int × Int)) :=
+  [((0, 0, 0), (4, 0, 0)), ((4, 0, 0), (20, 0, 0))]
 
 end CryoCat.C19
